@@ -156,12 +156,21 @@ def run(ctx):
                         how = rng.choice(OUTCOMES)
                         rq, f, size = sc.new_request(how)
                         tid += 1
+                        if rng.random() < 0.3:
+                            # between two passes the recorded free space or the operator's limits change (earlier transfers
+                            # filled the disk; `node modify --min-avail / --max-total`): the admission test of this pass must
+                            # see the current record
+                            newvals = dict(avail_gb=rng.choice([None, 1 / 2 ** 20, 10 / 2 ** 20]), min_avail_gb=rng.choice([0, 5 / 2 ** 20]),
+                                           max_total_gb=rng.choice([None, 1 / 2 ** 20, 1.0]))
+                            db.StorageNode.update(**newvals).where(db.StorageNode.id == sc.dst.id).execute()
+                            ctx.count("limits-changed-between-passes")
                         node = db.StorageNode.get(id=sc.dst.id)
                         um = under_min(node)
                         om = at_limit(db, node)
                         qs = sc.q.qsize
                         e.set_host("h1")
-                        sc.un.io.set_storage(node) if hasattr(sc.un.io, "set_storage") else None
+                        sc.un.reinit(node)              # what the main loop does with the freshly queried row at the start of a pass
+                        sc.patch_unknown()
                         sc.un.io.pull(rq)
                         created = sc.q.qsize > qs
                         if created:
